@@ -280,9 +280,15 @@ def check_protocol(repo, rep, rid, what="full", cfgs=None, sims=SIMS):
             if what == "order":
                 continue                # only "nothing before every symbol is matched" is asked for
             if what == "prune":
-                got = [e for e in got if e[0] in ("exec", "prune")]
-                want = [e for e in want if e[0] in ("exec", "prune")]
-            why = conforms(got, want, cfg, last=(bi == len(bl) - 1))
+                # only: every route's active orders are pruned in every step, after its strategy ran (if it did)
+                why = None
+                for r in cfg["symbols"]:
+                    ex = next((i for i, e in enumerate(got) if e == ("exec", r)), -1)
+                    if not any(e == ("prune", r) and i > ex for i, e in enumerate(got)):
+                        why = f"the active orders of {r} are not pruned" + (" after its strategy executed" if ex >= 0 else "")
+                        break
+            else:
+                why = conforms(got, want, cfg, last=(bi == len(bl) - 1))
             if why:
                 bad = f"after minute {b['end']} the simulator does {got}; expected {want}: {why}"
                 break
